@@ -775,10 +775,10 @@ Qed.
 
 Lemma write_enum_first e :
   unspec_ok e = true ->
-  exists d rest, eo_values (write_enum e) = ((ed_prefix e ++ unspecified)%list, 0%Z, d) :: rest.
+  exists d inf rest, eo_values (write_enum e) = ((ed_prefix e ++ unspecified)%list, 0%Z, d, inf) :: rest.
 Proof.
   intro H. unfold write_enum, unspec_ok in *. cbn [eo_values].
-  destruct (ed_options e) as [|[n d] r]; [eauto|].
+  destruct (ed_options e) as [|[[n d] inf] r]; [eauto|].
   destruct (has_suffix unspecified n) eqn:Es; [|eauto].
   apply orb_true_iff in H as [H|H].
   - apply str_eqb_eq in H. subst n. unfold pfx. rewrite has_prefix_app. eauto.
@@ -793,12 +793,12 @@ Proof.
 Qed.
 
 Lemma read_numbered p os : forall i,
-  forallb (fun o => desc_plain (snd o)) os = true ->
-  map (fun v => match v with (n, k, d) => (trim_prefix p n, k, clean_desc d) end) (number_from p i os)
+  forallb (fun o => desc_plain (snd (fst o))) os = true ->
+  map (fun v => match v with (n, k, d, inf) => (trim_prefix p n, k, clean_desc d, inf) end) (number_from p i os)
   = number_options p i os.
 Proof.
-  induction os as [|[n d] r IH]; intros i H; [reflexivity|].
-  cbn [forallb snd] in H. apply andb_true_iff in H as [Hd Hr].
+  induction os as [|[[n d] inf] r IH]; intros i H; [reflexivity|].
+  cbn [forallb snd fst] in H. apply andb_true_iff in H as [Hd Hr].
   cbn [number_from number_options map]. rewrite trim_pfx, (desc_plain_eq d Hd), (IH (i + 1)%Z Hr). reflexivity.
 Qed.
 
@@ -808,14 +808,14 @@ Proof. unfold has_suffix. rewrite <- (app_nil_r (rev s)) at 2. apply has_prefix_
 Theorem c04_enum e : enum_rt e = true -> read_enum (write_enum e) = Ok (norm_enum e).
 Proof.
   intro H. unfold enum_rt in H. apply andb_true_iff in H as [H Hos]. apply andb_true_iff in H as [Hu Hd].
-  destruct (write_enum_first e Hu) as [d0 [rest Hv]].
+  destruct (write_enum_first e Hu) as [d0 [inf0 [rest Hv]]].
   unfold read_enum. rewrite Hv. rewrite has_suffix_app. cbn [negb]. rewrite trim_suffix_app.
-  rewrite <- Hv. clear Hv d0 rest.
-  unfold norm_enum, write_enum. cbn [eo_desc eo_values]. rewrite (desc_plain_eq _ Hd). f_equal. f_equal.
+  rewrite <- Hv. clear Hv d0 inf0 rest.
+  unfold norm_enum, write_enum. cbn [eo_desc eo_values eo_info]. rewrite (desc_plain_eq _ Hd). f_equal. f_equal.
   unfold unspec_ok in Hu.
-  destruct (ed_options e) as [|[n d] r] eqn:Eo.
+  destruct (ed_options e) as [|[[n d] inf] r] eqn:Eo.
   - cbn [map]. unfold trim_prefix. rewrite has_prefix_app, strip_prefix_app. reflexivity.
-  - cbn [forallb snd] in Hos. apply andb_true_iff in Hos as [Hd0 Hr].
+  - cbn [forallb snd fst] in Hos. apply andb_true_iff in Hos as [Hd0 Hr].
     destruct (has_suffix unspecified n) eqn:Es.
     + assert (Hn : names_unspecified (ed_prefix e) n = true /\ pfx (ed_prefix e) n = (ed_prefix e ++ unspecified)%list).
       { unfold names_unspecified. apply orb_true_iff in Hu as [Hu|Hu].
@@ -833,9 +833,9 @@ Proof.
         - destruct (str_eqb n (ed_prefix e ++ unspecified)) eqn:E; [|reflexivity]. apply str_eqb_eq in E. subst n.
           rewrite has_suffix_app in Es. discriminate. }
       rewrite Hn. cbn [map]. unfold trim_prefix at 1. rewrite has_prefix_app, strip_prefix_app. cbn [clean_desc].
-      assert (Hall : forallb (fun o => desc_plain (snd o)) ((n, d) :: r) = true)
-        by (cbn [forallb snd]; rewrite Hd0, Hr; reflexivity).
-      rewrite (read_numbered (ed_prefix e) ((n, d) :: r) 1%Z Hall). reflexivity.
+      assert (Hall : forallb (fun o => desc_plain (snd (fst o))) ((n, d, inf) :: r) = true)
+        by (cbn [forallb snd fst]; rewrite Hd0, Hr; reflexivity).
+      rewrite (read_numbered (ed_prefix e) ((n, d, inf) :: r) 1%Z Hall). reflexivity.
 Qed.
 
 (* ---------------------------------------------------------------- the printed text *)
